@@ -43,7 +43,7 @@ func genC06(rt *rapid.T) *C06Spec {
 	for i := 0; i < n; i++ {
 		s.Chain = append(s.Chain, []string{"safe", "unsafe"}[rapid.IntRange(0, 1).Draw(rt, "w")])
 	}
-	s.Place = []string{"Top", "Top", "Top", "Slice", "Struct", "Map", "AfterSafe", "RV", "RVIface", "RVField", "RVIndex"}[rapid.IntRange(0, 10).Draw(rt, "place")]
+	s.Place = []string{"Top", "Top", "Top", "Slice", "Struct", "Map", "AfterSafe", "RV", "RVIface", "RVField", "RVIndex", "UField"}[rapid.IntRange(0, 11).Draw(rt, "place")]
 	if s.Place == "AfterSafe" {
 		s.Place += string(rune('0' + rapid.IntRange(0, 7).Draw(rt, "sibling")))
 	}
